@@ -161,3 +161,47 @@ Theorem C12_d_euler_criterion : fpow ed_d (Z.to_N ((r - 1) / 2)) = - (1).
 Proof. exact ed_d_euler. Qed.
 Check C12_d_euler_criterion : fpow ed_d (Z.to_N ((r - 1) / 2)) = - (1).
 Print Assumptions C12_d_euler_criterion.
+
+(* subtraction and identity selection: what they emit; subtraction is addition of the negation *)
+Theorem C12_sub_emits : forall a b s,
+  let n := length (wits s) in
+  fst (component_sub_point a b s) = (S (S n), S (S (S n))) /\
+  rows (snd (component_sub_point a b s)) =
+    rows s ++ [arith_row (c_neg (fst b) n)] ++ var_rows a (n, snd b) (S n) (S (S n)) (S (S (S n))) /\
+  length (wits (snd (component_sub_point a b s))) = S (S (S (S n))).
+Proof. exact component_sub_point_rows. Qed.
+Check C12_sub_emits : forall a b s,
+  let n := length (wits s) in
+  fst (component_sub_point a b s) = (S (S n), S (S (S n))) /\
+  rows (snd (component_sub_point a b s)) =
+    rows s ++ [arith_row (c_neg (fst b) n)] ++ var_rows a (n, snd b) (S n) (S (S n)) (S (S (S n))) /\
+  length (wits (snd (component_sub_point a b s))) = S (S (S (S n))).
+Print Assumptions C12_sub_emits.
+
+Theorem C12_sub_sound : forall (PR : PrimeR) (ND : NonSquareD) asg a b n,
+  let P := (asg (fst a), asg (snd a)) in let Q := (asg (fst b), asg (snd b)) in
+  on_curve P -> on_curve Q ->
+  block_sat ([arith_row (c_neg (fst b) n)] ++ var_rows a (n, snd b) (S n) (S (S n)) (S (S (S n)))) asg ->
+  (asg (S (S n)), asg (S (S (S n)))) = ed_add P (ed_neg Q).
+Proof. exact @sub_point_sound. Qed.
+Check C12_sub_sound : forall (PR : PrimeR) (ND : NonSquareD) asg a b n,
+  let P := (asg (fst a), asg (snd a)) in let Q := (asg (fst b), asg (snd b)) in
+  on_curve P -> on_curve Q ->
+  block_sat ([arith_row (c_neg (fst b) n)] ++ var_rows a (n, snd b) (S n) (S (S n)) (S (S (S n)))) asg ->
+  (asg (S (S n)), asg (S (S (S n)))) = ed_add P (ed_neg Q).
+Print Assumptions C12_sub_sound.
+
+Theorem C12_select_identity_emits : forall (PR : PrimeR) bit a s,
+  let n := length (wits s) in
+  fst (component_select_identity bit a s) = (n, S n) /\
+  rows (snd (component_select_identity bit a s)) =
+    rows s ++ map arith_row (c_boolean bit :: selid_rows bit a n) /\
+  length (wits (snd (component_select_identity bit a s))) = S (S n).
+Proof. exact @component_select_identity_rows. Qed.
+Check C12_select_identity_emits : forall (PR : PrimeR) bit a s,
+  let n := length (wits s) in
+  fst (component_select_identity bit a s) = (n, S n) /\
+  rows (snd (component_select_identity bit a s)) =
+    rows s ++ map arith_row (c_boolean bit :: selid_rows bit a n) /\
+  length (wits (snd (component_select_identity bit a s))) = S (S n).
+Print Assumptions C12_select_identity_emits.
